@@ -217,7 +217,19 @@ def consensus(
     super_reads = [[], []]
     components = dict()
 
+    # Variants that are already phased in the input keep their phase and phase set
+    for pos, phase in phased.items():
+        if phase is None or phase.block_id is None:
+            continue
+        if len(phase.phase) != 2 or None in phase.phase:
+            continue
+        components[pos] = phase.block_id - 1
+        for haplotype, allele in enumerate(phase.phase):
+            super_reads[haplotype].append(Variant(pos, allele=allele, quality=0))
+
     for pos, vote in votes.items():
+        if pos in components:
+            continue
         best_allele, phase_set, fraction, score = best_candidate(vote)
         components[pos] = phase_set
         if phased[pos] is None:
